@@ -54,7 +54,7 @@ def evaluate(case):
         return ('deadlock', 'scheduler-detected deadlock (a path that does not release the memory mutex?): ' + extra.get('stderr', '')[-300:]), set()
     if st != 'ok':
         key = ([l for l in extra.get('stderr', '').splitlines() if 'ERROR' in l or 'runtime error' in l or 'VSCHED' in l] or [st])[0]
-        return ('crash:' + f1.normalize_diag(key), 'harness %s: %s' % (st, extra.get('stderr', '')[-900:])), set()
+        return ('crash:' + f1.normalize_diag(key), 'harness %s: %s' % (st, extra.get('stderr', '')[:900])), set()
     return sched.check_grow(case, events, extra)
 
 
